@@ -19,14 +19,16 @@ def trace_summary(trace, limit=400):
     return out[-limit:]
 
 
-def make_replay(pid, jn, o, r, work):
-    """o: failed obligation of job jn.  Returns dict(path=..., replayed=bool)"""
+def make_replay(pid, jn, obs, r, work):
+    """obs: the refuted obligations of job jn (the first one is traced).  Returns dict(path=..., replayed=bool)"""
     from . import finders
     job = r.job
+    o = obs[0]
     rec = dict(property=pid, job=jn, obligation=o['name'], description=o['description'],
                where='%s:%s' % (o['file'], o['line']), function=o['function'],
-               cbmc_commands=r.cmds, repo_head=None, replayed=False)
-    # 1. the verifier's own counterexample for this obligation
+               all_failed_obligations=[dict(name=x['name'], description=x['description'], where='%s:%s' % (x['file'], x['line'])) for x in obs],
+               cbmc_commands=r.cmds, replayed=False)
+    # 1. the verifier's own counterexample for the first refuted obligation
     try:
         tr = run_job(job, os.path.join(work, jn + '.trace'), False, ['-I' + work], trace_property=o['name'])
         for ob in tr.obligations + tr.reach:
@@ -44,7 +46,7 @@ def make_replay(pid, jn, o, r, work):
     if found:
         rec.update(found)
         rec['replayed'] = bool(found.get('replay_confirms'))
-    safe = re.sub(r'[^A-Za-z0-9_.-]', '_', '%s-%s-%s' % (pid, jn, o['name']))
+    safe = re.sub(r'[^A-Za-z0-9_.-]', '_', '%s-%s' % (pid, jn))
     path = os.path.join(os.environ.get('VERIF_REPLAY_DIR') or os.path.join(VERIF, 'replays'), safe + '.json')
     os.makedirs(os.path.dirname(path), exist_ok=True)
     with open(path, 'w') as f:
